@@ -115,6 +115,16 @@ EDITS = {
          "        sg = rng.bit_generator._seed_seq.spawn(len(tasks))\n        for i in range(len(tasks)):\n            tasks[i] = tuple(tasks[i]) + (Generator(PCG64(sg[i])),)\n",
          "        n_streams = len(tasks)\n        sg = rng.bit_generator._seed_seq.spawn(n_streams)\n        for i in range(0, n_streams):\n            child = Generator(PCG64(sg[i]))\n            tasks[i] = tuple(tasks[i]) + (child,)\n"),
     ]),
+    # an optional parameter nobody passes yet (round 6: the contracts bind a parameter they do not mention to its default)
+    "run_worker-unused-optional-parameter": (["C16", "C05", "C14"], [
+        ("thejoker/multiproc_helpers.py", "    samples_idx=None,\n    rng=None,\n):\n    with tb.open_file(prior_samples_file, mode=\"r\") as f:\n",
+         "    samples_idx=None,\n    rng=None,\n    progress=False,\n):\n    with tb.open_file(prior_samples_file, mode=\"r\") as f:\n"),
+    ]),
+    "batch_tasks-divmod": (["C16", "C02"], [
+        ("thejoker/utils.py",
+         "        base_batch_size = n_tasks // n_batches\n        rmdr = n_tasks % n_batches\n",
+         "        base_batch_size, rmdr = divmod(n_tasks, n_batches)\n"),
+    ]),
     "dtype_compare-hoist": (["C12"], [
         ("thejoker/samples_helpers.py",
          "        for k in set(list(d1.keys()) + list(d2.keys())):\n",
